@@ -296,7 +296,8 @@ pub fn drive(n: usize, len: usize, out: &str) -> ! {
             segs.push((0..l).map(|_| *[0u8, 1, 2, 254, 255].get(rng.gen_range(0..5)).unwrap()).collect());
         }
         if directed {
-            segs = vec![vec![255u8; 65535], vec![255], vec![]];
+            // maximal bytes everywhere: the longest segment, segments whose length byte is 0xFF, short ones
+            segs = vec![vec![255u8; 65535], vec![255u8; 255], vec![255u8; 511], vec![255], vec![]];
         }
         let mut paths: Vec<Vec<Vec<u8>>> = vec![vec![]];
         for s in &segs {
@@ -305,10 +306,15 @@ pub fn drive(n: usize, len: usize, out: &str) -> ! {
         for _ in 0..6 {
             let a = segs[rng.gen_range(0..segs.len())].clone();
             let b = segs[rng.gen_range(0..segs.len())].clone();
-            if directed && a.len() > 1000 && b.len() > 1000 {
+            if directed {
                 continue;
             }
             paths.push(vec![a, b]);
+        }
+        if directed {
+            paths.push(vec![vec![255u8; 255], vec![255u8; 65535]]);
+            paths.push(vec![vec![255u8; 255], vec![255u8]]);
+            paths.push(vec![vec![], vec![255u8; 255]]);
         }
         // keys: short byte strings, plus keys that spell the raw encoding of other paths
         let mut keys: Vec<Vec<u8>> = vec![vec![], vec![0], vec![255], vec![0, 0], vec![255, 255]];
@@ -328,12 +334,13 @@ pub fn drive(n: usize, len: usize, out: &str) -> ! {
         let reset = json!({"ev":"reset","p":[],"k":[-1],"v":[-1],"res":"ok","raw":[],"obs":[]});
         writeln!(f, "{}", reset).unwrap();
         events += 1;
-        let steps = if directed { 8 } else { len };
-        for _ in 0..steps {
+        let steps = if directed { d.paths.len() } else { len };
+        for step in 0..steps {
             let alt = d.rng.gen_bool(0.5);
-            let p = PDrv::pick(&mut d.rng, &d.paths);
-            let k = PDrv::pick(&mut d.rng, &d.keys);
-            let c = d.rng.gen_range(0..100);
+            // the directed run writes one entry through every path, then looks at all of them
+            let p = if directed { d.paths[step].clone() } else { PDrv::pick(&mut d.rng, &d.paths) };
+            let k = if directed { vec![1u8] } else { PDrv::pick(&mut d.rng, &d.keys) };
+            let c = if directed { 0 } else { d.rng.gen_range(0..100) };
             let (ev, v, res) = if c < 60 {
                 let v = vec![d.rng.gen_range(1..=255u8)];
                 if p.is_empty() && alt {
